@@ -16,6 +16,10 @@ use verif_harness::{guarded, quiet_panics};
 const NAMES: &[&str] = &["a", "b", "c", "ab", "a b", "é", "😀", "", "0", "_x1"];
 const BLANKS: &[&str] = &["", "", "", "", " ", "\t", "\n", "\r", "  "];
 
+/// numbers of 10 to 15 significant digits (JsonModel.JNumX); with at most 15 digits different decimals are different doubles
+const LONG_NUMBERS: &[&str] = &["0.123456789012345", "1234567.89012345", "98765432101234", "1.00000000000001", "12345678901234e-20", "-0.000123456789012345",
+    "0.123456789012346", "4503599627370496", "-98765432101234", "1234567890.5", "9.99999999999999e22", "123456789012345e-7"];
+
 struct G {
     r: StdRng,
 }
@@ -138,6 +142,9 @@ impl G {
         s
     }
     fn literal(&mut self) -> String {
+        if self.r.gen_range(0..8) == 0 {
+            return self.pick(LONG_NUMBERS).to_string();
+        }
         match self.r.gen_range(0..10) {
             0 => "true".into(),
             1 => "false".into(),
@@ -223,6 +230,11 @@ impl G {
         s
     }
     fn scalar(&mut self) -> Value {
+        if self.r.gen_range(0..8) == 0 {
+            // the same decimals as the long literals (as doubles / integers of the document)
+            let t = self.pick(LONG_NUMBERS);
+            return match t.parse::<i64>() { Ok(i) => json!(i), Err(_) => json!(t.parse::<f64>().unwrap()) };
+        }
         match self.r.gen_range(0..12) {
             0 => Value::Null,
             1 => json!(true),
@@ -337,11 +349,13 @@ fn main() {
     let mode = args.get(1).cloned().unwrap_or_default();
     let mut seed = 0u64;
     let mut n = 100usize;
+    let mut part = String::from("docs");
     let mut i = 2;
     while i < args.len() {
         match args[i].as_str() {
             "--seed" => { seed = args[i + 1].parse().unwrap(); i += 1; }
             "--n" => { n = args[i + 1].parse().unwrap(); i += 1; }
+            "--part" => { part = args[i + 1].clone(); i += 1; }
             _ => {}
         }
         i += 1;
@@ -411,12 +425,33 @@ fn main() {
             let big_obj = Value::Object((0..size / 2).map(|i| (format!("k{:04}", i), json!(i % 7))).collect());
             let long_name: String = std::iter::repeat("é😀ab").take(300).collect();
             let big_mix = json!({"s": "x".repeat(size + 2000), "u": "😀".repeat(1200), long_name.clone(): [1, 2, 3], "a": (0..150).map(|i| json!({"a": i, "b": [i, i + 1]})).collect::<Vec<_>>()});
-            let large: Vec<(Value, Vec<String>)> = vec![
+            // two-level fan-out: a small first child followed by a child with thousands of children
+            let two_level = json!({"a": [1, 2, 3], "b": (0..2100).map(|i| json!(i)).collect::<Vec<_>>()});
+            // powers of ten as indexes
+            let arr1100 = Value::Array((0..1100).map(|i| json!(i)).collect());
+            let large: Vec<(Value, Vec<String>)> = if part == "huge" {
+                // one array beyond 100 000 elements: five- and six-digit indexes
+                let m = 100_003usize;
+                vec![(Value::Array((0..m).map(|i| json!(i % 10)).collect()), vec!["$[100000]".to_string(), "$[-1]".to_string(), "$[99998:100001]".to_string(), "$[-100003,99999,100002]".to_string()])]
+            } else if part == "text" {
+                // LARGE QUERY TEXT (C06/C13): thousands of blanks at every place the grammar allows them; a member name of
+                // 12 000 characters in shorthand and bracket notation (part textnames: TLC needs minutes per event)
+                let name12k: String = std::iter::repeat("abcdefghij_\u{e9}").take(1000).collect();
+                let small = json!({name12k.clone(): [1, {"a": 2}], "a": [3, 4]});
+                let b = " ".repeat(n.max(200) * 8);
+                let t = "\t\n\r ".repeat(n.max(200) * 2);
+                vec![(small, vec![format!("$.{}", name12k), format!("$['{}']", name12k), format!("$[\"{}\"]", name12k), format!("$..{}", name12k), format!("$..['{}'][1].a", name12k),
+                                  format!("$[?@.{}]", name12k), format!("$..{}[?@.a == 2]", name12k),
+                                  format!("${b}[{b}'a'{b}]{b}[{b}0{b}]"), format!("${t}.a{t}[{t}0{t}:{t}2{t}:{t}1{t},{t}-1{t}]"), format!("$[{b}?{b}@{b}=={b}3{b}||{b}@{b}<{b}1{b}]"),
+                                  format!("$.a[?{t}({t}@{t}>{t}3{t}){t}&&{t}!{t}({t}@{t}=={t}5{t}){t}]"), "$['a'][0]".to_string(), "$.a[0:2:1,-1]".to_string(), "$.a[?(@>3)&&!(@==5)]".to_string()])]
+            } else { vec![
                 (big_arr, vec![format!("$[{}]", size - 1), format!("$[-{}]", size), format!("$[{}]", size), format!("$[{}:{}]", size / 3, size / 3 + 10), format!("$[::-{}]", size / 6), format!("$[{}:]", size - 10), format!("$[?@ >= {}]", size - 5), format!("$[?@ == 100 || @ == {}]", size - 100), format!("$..[100,{}]", size - 7), "$[-1,0,-1]".to_string(), "$[?@ < 3][?@]".to_string()]),
                 (big_obj, vec![format!("$.k{:04}", size / 2 - 1), format!("$['k0000','k{:04}']", size / 2 - 1), "$[?@ == 6]".to_string(), "$..[?@ > 5]".to_string(), format!("$.k{:04}", size / 2), "$[?@ == 0 && @ != 1].x".to_string()]),
                 (big_mix, vec![format!("$[?length(@) > {}]", size + 1999), "$[?length(@) == 1200]".to_string(), format!("$['{}'][1]", long_name), format!("$..['{}'][::-1]", long_name),
                                "$.a[?@.a > 145].b[1]".to_string(), "$.a[100].b[-1]".to_string(), "$.a..b[0]".to_string(), "$.a[?count(@.b[*]) == 2 && @.a == 149]".to_string(), "$..a[149]".to_string()]),
-            ];
+                (two_level, vec!["$[*][*]".to_string(), "$..*".to_string(), "$.*[0:]".to_string(), "$[*][?@ != null]".to_string(), "$..[0]".to_string(), "$[*][-1]".to_string()]),
+                (arr1100, vec!["$[1000]".to_string(), "$[999:1002]".to_string(), "$[-100]".to_string(), "$[?@ == 1000 || @ == 100 || @ == 10]".to_string(), "$[10,100,1000,1]".to_string(), "$..[1000]".to_string()]),
+            ] };
             for (doc, qs) in large.iter() {
                 let Some(sdoc) = SVal::from_value(doc) else { continue };
                 let am = AddrMap::new(doc);
